@@ -1740,6 +1740,15 @@ impl Fs {
                 {
                     return true;
                 }
+                // Entries that arrived by a rename (same arm as in `dir_entries`)
+                PendingOp::Rename { to, .. }
+                    if to.parent() == Some(path)
+                        && (self.file_exists(to)
+                            || self.dir_exists(to)
+                            || self.symlink_exists(to)) =>
+                {
+                    return true;
+                }
                 _ => {}
             }
         }
